@@ -63,7 +63,7 @@ def run(ctx, pid):
     scen = scenarios(pid, thorough)
     # map/quota scenarios on the pinned design take 30 s each (known findings): keep few in quick
     if not thorough and pid == 'C07':
-        slow = [s for s in scen if 'map' in s['mix'] or s['quota']]
+        slow = [s for s in scen if ('map' in s['mix'] and s['procs'] >= 2) or s['quota']]
         fast = [s for s in scen if s not in slow]
         scen = fast + [s for s in slow if s['procs'] == 2 and s['when'] == 'now'
                        and (s['quota'] == 0 or s['mix'] == ['apply'])][:3]
